@@ -6,15 +6,23 @@ import PyxisVerif.Lemmas.C09Case
 # C20, end to end: helper lemmas
 
 `Props/C20E2E.lean` states that a description rewritten into an equivalent one gives the same
-`Case.run` (hence the same O2 and O3).  This file has the simulation argument.
+`Case.run` (hence the same O2 and O3).  This file has the simulation arguments.
 
 * `RegSim r r'`: the two registries answer every lookup with the same item, except that the
   *definition stored in an unresolved entry* may differ.  Every reader of the registry that the
   builder and the backend use is invariant under `RegSim` (they only ever look at the resolved
   information of other items).
 * `swapS p d d' s`: the state `s` with the unresolved entry `d` at key `p` replaced by `d'`.
-  Every stage of the build commutes with it, provided the attempt on `d'` gives what the attempt
-  on `d` gives in the states where the item is attempted.
+  Every stage of the build commutes with it (`attemptItem_swap`, `runRound_swap`, `resolveLoop_swap`,
+  `build_swap`, `addModule_swap`), provided the attempt on `d'` gives what the attempt on `d` gives in the
+  states where the item is attempted; `run_replaced_on` / `run_replaced_ok` are the case-level results
+  (invariant form / accepted-run form).
+* the rewrites: `enumRewrite` (a), `sizeRewrite` (b), `addrRewrite` (c), `indexRewrite` (d), each with the
+  lemma that lifts the inner no-op of `Lemmas/C20.lean` to `buildEnum` / `buildType`.
+* `PermS s s'`: two states that differ in the order of the registry entries and of the modules'
+  definition paths only; every stage of the build keeps it (`attemptItem_perm`, …, `build_perm`), and
+  `add_module` of a module with permuted definitions establishes it (`defFold_perm`, by induction on the
+  permutation) – rewrite (e).
 -/
 namespace PyxisVerif.C20
 open Layout
@@ -156,7 +164,6 @@ theorem buildVftableItem_sim (h : RegSim r r') : buildVftableItem r' = buildVfta
   funext owner vis fns
   simp only [buildVftableItem, h.ps]
 
-variable {r r' : Registry}
 
 /-! ## the backend and the O2 observation under `RegSim` -/
 
@@ -3732,5 +3739,264 @@ theorem run_reordered (c c' : Case) (h : ReorderedDefs c c') : RelO PermS c.run 
     | panic m => rfl
   · rw [h1, h2]
     exact build_perm c.prio hs
+
+
+/-! ### the registry keys agree with the items' own paths -/
+
+/-- every item is stored under its own path -/
+def WK (r : Registry) : Prop := ∀ q i, r.get q = some i → i.path = q
+
+theorem WK.add {r : Registry} (h : WK r) (i : ItemDef) : WK (r.add i) := by
+  intro q j hj
+  rw [C14.get_add] at hj
+  by_cases hq : q = i.path
+  · rw [if_pos hq] at hj; cases hj; exact hq.symm
+  · rw [if_neg hq] at hj; exact h q j hj
+
+theorem WK.setState {r : Registry} (h : WK r) (p : Path) (st : IState) : WK (r.setState p st) := by
+  intro q j hj
+  rw [C12.get_setState] at hj
+  by_cases hq : q = p
+  · rw [if_pos hq] at hj
+    cases hg : r.get q with
+    | none => rw [hg] at hj; cases hj
+    | some i => rw [hg] at hj; cases hj; exact h q i hg
+  · rw [if_neg hq] at hj; exact h q j hj
+
+theorem WK.addItem {s s' : State} (h : WK s.reg) (i : ItemDef) (ha : s.addItem i = .ok s') : WK s'.reg := by
+  rw [C14.addItem_reg s s' i ha]; exact h.add i
+
+theorem WK.new (ps : Nat) : WK (State.new ps).reg := by
+  rw [C02.new_eq]
+  have : ∀ (l : List (String × Nat)) (s : State), (s.getModule []).isSome = true → WK s.reg →
+      WK (l.foldl C02.newStep s).reg := by
+    intro l
+    induction l with
+    | nil => intro s _ hs; exact hs
+    | cons x l ih =>
+      intro s hm hs
+      obtain ⟨h1, h2⟩ := C02.newStep_spec s x hm
+      refine ih _ h1 ?_
+      rw [h2]
+      exact hs.add _
+  refine this _ _ rfl ?_
+  intro q i hi
+  cases hi
+
+theorem WK.addModule {s s' : State} (h : WK s.reg) (m : G.Module) (path : Path)
+    (ha : s.addModule m path = .ok s') : WK s'.reg := by
+  obtain ⟨xvals, doc, s2, _, h1, h2⟩ := C14.addModule_inv s s' m path ha
+  have k0 : WK (s.putModule path (C14.newMod m path xvals doc)).reg := h
+  have k2 := foldlM_inv' (C14.defStep path) (fun t => WK t.reg)
+    (fun b a b' hb hf => by
+      obtain ⟨_, i, _, hi⟩ := C14.defStep_spec path b a b' hf
+      exact WK.addItem hb i hi) m.defs _ s2 k0 h1
+  exact foldlM_inv' (C14.xtypeStep path) (fun t => WK t.reg)
+    (fun b a b' hb hf => by
+      obtain ⟨_, i, _, hi⟩ := C14.xtypeStep_spec path b a b' hf
+      exact WK.addItem hb i hi) m.xtypes s2 s' k2 h2
+
+theorem WK.initialState (c : Case) (s0 : State) (h : c.initialState = .ok s0) : WK s0.reg := by
+  rw [initialState_eq] at h
+  refine foldlM_inv' caseStep (fun t => WK t.reg) ?_ c.modules _ s0 (WK.new c.ps) h
+  intro b me b' hb hf
+  cases me with
+  | ast path file m => exact WK.addModule hb m path hf
+  | text f t => cases hf
+
+theorem WK.reach {s s1 : State} {owner : Path} (h : WK s.reg) (hr : C10.Reach s s1 owner) : WK s1.reg := by
+  rcases hr with rfl | ⟨item, _, _, _, ha⟩
+  · exact h
+  · exact WK.addItem h item ha
+
+theorem WK.attemptItem {s : State} (h : WK s.reg) (q : Path) : WK (attemptItem s q).1.reg := by
+  rw [attemptItem_eq]
+  cases s.reg.get q with
+  | none => exact h
+  | some item =>
+    simp only []
+    cases item.state with
+    | res r => exact h
+    | unres d0 =>
+      simp only []
+      have h1 := WK.reach h (attemptDef_reach s q d0)
+      cases hx : attemptDef s q d0 with
+      | mk s1 x =>
+        rw [hx] at h1
+        cases x with
+        | ok r => exact h1.setState q _
+        | _ => exact h1
+
+theorem WK.runRound (l : List Path) {s : State} (h : WK s.reg) : WK (runRound s l).1.reg := by
+  induction l generalizing s with
+  | nil => exact h
+  | cons q qs ih =>
+    have h1 := WK.attemptItem h q
+    cases ha : PyxisVerif.attemptItem s q with
+    | mk s2 r2 =>
+      rw [ha] at h1
+      cases r2 with
+      | ok u => cases u; rw [runRound_cons_ok s s2 q qs ha]; exact ih h1
+      | defer => rw [runRound_cons_stop s s2 q qs _ ha (by simp)]; exact h1
+      | err m => rw [runRound_cons_stop s s2 q qs _ ha (by simp)]; exact h1
+      | panic m => rw [runRound_cons_stop s s2 q qs _ ha (by simp)]; exact h1
+
+theorem WK.resolveLoop (prio : List Path) (fuel : Nat) {s sf : State} (h : WK s.reg)
+    (hl : resolveLoop prio fuel s = .ok sf) : WK sf.reg := by
+  induction fuel generalizing s with
+  | zero => cases hl
+  | succ n ih =>
+    rcases resolveLoop_ok_inv prio n s sf hl with ⟨_, rfl⟩ | ⟨_, s1, hr, _, hl1⟩
+    · exact h
+    · have := WK.runRound (s.reg.unresolved prio) h
+      rw [hr] at this
+      exact ih this hl1
+
+theorem WK.build (prio : List Path) {s sf : State} (h : WK s.reg) (hb : s.build prio = .ok sf) : WK sf.reg := by
+  obtain ⟨s1, hl, ms, _, rfl⟩ := C09.build_ok_inv s prio sf hb
+  have k : WK s1.reg := WK.resolveLoop prio _ h hl
+  exact k
+
+theorem WK.run (c : Case) (sf : State) (h : c.run = .ok sf) : WK sf.reg := by
+  unfold Case.run at h
+  cases hi : c.initialState with
+  | ok s0 => rw [hi] at h; exact WK.build c.prio (WK.initialState c s0 hi) h
+  | defer => rw [hi] at h; cases h
+  | err m => rw [hi] at h; cases h
+  | panic m => rw [hi] at h; cases h
+
+/-! ### the observations of two states that differ in order only -/
+
+theorem moduleFile_canon (s : State) (hk : WK s.reg) (key : Path) (m : Mod) :
+    Emit.moduleFile s key (canonM m) = Emit.moduleFile s key m :=
+  reorder_definitions_lem s key m (canonM m) (List.mergeSort_perm _ _) hk rfl
+
+abbrev fileLe : Path × Mod → Path × Mod → Bool := fun a b => Emit.relFile a.1 ≤ Emit.relFile b.1
+
+theorem sortBy_canonE (l : List (Path × Mod)) :
+    (Emit.sortBy fileLe l).map canonE = Emit.sortBy fileLe (l.map canonE) := by
+  unfold Emit.sortBy
+  apply List.map_mergeSort
+  intro a _ b _
+  rfl
+
+theorem files_perm {s s' : State} (h : PermS s s') (hk : WK s.reg) : Emit.files s' = Emit.files s := by
+  have e : ∀ (t : State) (ms : List (Path × Mod)), (∀ key m, Emit.moduleFile t key m = Emit.moduleFile s key (canonM m)) →
+      (Emit.sortBy fileLe (ms.filter fun e => !e.1.isEmpty)).map (fun e => Emit.moduleFile t e.1 e.2)
+        = (Emit.sortBy fileLe ((ms.map canonE).filter fun e => !e.1.isEmpty)).map (fun e => Emit.moduleFile s e.1 e.2) := by
+    intro t ms ht
+    have : (ms.map canonE).filter (fun e => !e.1.isEmpty) = (ms.filter fun e => !e.1.isEmpty).map canonE := by
+      rw [List.filter_map]; rfl
+    rw [this, ← sortBy_canonE, List.map_map]
+    apply List.map_congr_left
+    intro x _
+    exact ht x.1 x.2
+  unfold Emit.files
+  simp only []
+  rw [e s' s'.modules (fun key m => by rw [moduleFile_sim s s' h.regSim, moduleFile_canon s hk]),
+      e s s.modules (fun key m => (moduleFile_canon s hk key m).symm), h.mods]
+
+theorem o3Of_perm {o o' : BuildOutcome} (h : RelO PermS o o') (hk : ∀ s, o = .ok s → WK s.reg) :
+    o3Of o' = o3Of o := by
+  cases o with
+  | ok s =>
+    cases o' with
+    | ok s' => simp only [o3Of, files_perm h (hk s rfl)]
+    | _ => exact h.elim
+  | nonterm l => cases o' <;> first | rfl | exact h.elim
+  | err m =>
+    cases o' with
+    | err m' => have : m' = m := h; rw [this]
+    | _ => exact h.elim
+  | panic m =>
+    cases o' with
+    | panic m' => have : m' = m := h; rw [this]
+    | _ => exact h.elim
+  | fuel => cases o' <;> first | rfl | exact h.elim
+
+theorem reorder_definitions_o3 (c c' : Case) (h : ReorderedDefs c c') : c'.o3 = c.o3 := by
+  rw [o3_eq, o3_eq]
+  exact o3Of_perm (run_reordered c c' h) (fun s hs => WK.run c s hs)
+
+theorem flatMap_perm_of_f2 {α β} (Q : α → α → Prop) (g : α → List β) (hg : ∀ a a', Q a a' → (g a').Perm (g a))
+    (l l' : List α) (h : F2 Q l l') : (l'.flatMap g).Perm (l.flatMap g) := by
+  induction h with
+  | nil => exact List.Perm.refl _
+  | @cons a a' l l' hq _ ih =>
+    simp only [List.flatMap_cons]
+    exact List.Perm.append (hg a a' hq) ih
+
+theorem resolvedS_perm {s s' : State} (h : PermS s s') (hk : WK s.reg) : Obs.resolvedS s' = Obs.resolvedS s := by
+  have hget : s'.reg.get = s.reg.get := funext h.get
+  -- the extern values
+  have hx : (s'.modules.flatMap fun e => e.2.xvals.map fun x => (e.1, x))
+      = (s.modules.flatMap fun e => e.2.xvals.map fun x => (e.1, x)) := by
+    have e : ∀ (ms : List (Path × Mod)), (ms.flatMap fun e => e.2.xvals.map fun x => (e.1, x))
+        = ((ms.map canonE).flatMap fun e => e.2.xvals.map fun x => (e.1, x)) := by
+      intro ms
+      rw [List.flatMap_map]
+      rfl
+    rw [e s'.modules, e s.modules, h.mods]
+  -- the items
+  have hperm : (s'.modules.flatMap fun e => e.2.defPaths.filterMap s'.reg.get).Perm
+      (s.modules.flatMap fun e => e.2.defPaths.filterMap s.reg.get) := by
+    rw [hget]
+    refine flatMap_perm_of_f2 (fun a a' => canonE a' = canonE a) _ ?_ _ _ (f2_of_map_eq canonE _ _ h.mods)
+    intro a a' hq
+    have : canonM a'.2 = canonM a.2 := congrArg Prod.snd hq
+    exact (canonM_perm this).filterMap _
+  have hsort : Emit.sortBy pathLe ((s'.modules.flatMap fun e => e.2.defPaths.filterMap s'.reg.get).filter (!·.isPredefined))
+      = Emit.sortBy pathLe ((s.modules.flatMap fun e => e.2.defPaths.filterMap s.reg.get).filter (!·.isPredefined)) := by
+    unfold Emit.sortBy
+    apply mergeSort_perm_eq
+    · intro a b c; exact ple_trans _ _ _
+    · intro a b; exact ple_total _ _
+    · exact hperm.filter _
+    · intro a b ha hb h1 h2
+      have key : ∀ x, x ∈ (s'.modules.flatMap fun e => e.2.defPaths.filterMap s'.reg.get).filter (!·.isPredefined) →
+          s.reg.get x.path = some x := by
+        intro x hx
+        have hx1 := (List.mem_filter.mp hx).1
+        rw [List.mem_flatMap] at hx1
+        obtain ⟨e, _, hxe⟩ := hx1
+        rw [List.mem_filterMap] at hxe
+        obtain ⟨q, _, hq⟩ := hxe
+        rw [h.get] at hq
+        rw [hk q x hq]
+        exact hq
+      have e := ple_antisymm _ _ h1 h2
+      have ka := key a ha
+      have kb := key b hb
+      rw [e] at ka
+      rw [ka] at kb
+      exact Option.some.inj kb
+  unfold Obs.resolvedS
+  simp only []
+  rw [hsort, hx]
+
+theorem outcomeS_perm {o o' : BuildOutcome} (h : RelO PermS o o') (hk : ∀ s, o = .ok s → WK s.reg) :
+    Obs.outcomeS o' = Obs.outcomeS o := by
+  cases o with
+  | ok s =>
+    cases o' with
+    | ok s' => exact resolvedS_perm h (hk s rfl)
+    | _ => exact h.elim
+  | nonterm l =>
+    cases o' with
+    | nonterm l' => have : l' = l := h; rw [this]
+    | _ => exact h.elim
+  | err m =>
+    cases o' with
+    | err m' => have : m' = m := h; rw [this]
+    | _ => exact h.elim
+  | panic m =>
+    cases o' with
+    | panic m' => have : m' = m := h; rw [this]
+    | _ => exact h.elim
+  | fuel => cases o' <;> first | rfl | exact h.elim
+
+theorem reorder_definitions_o2 (c c' : Case) (h : ReorderedDefs c c') : c'.o2 = c.o2 := by
+  unfold Case.o2
+  exact outcomeS_perm (run_reordered c c' h) (fun s hs => WK.run c s hs)
 
 end PyxisVerif.C20
